@@ -124,6 +124,7 @@ def _gen_common(rng, tier, routes, **treekw):
         "route": rng.choice(routes), "progress": rng.choice([0, 1, 2]),
         "enum": rng.choice(["sorted", "shuffle", "reverse"]), "enum_seed": rng.randrange(1000),
         "prelude": gen_prelude(rng), "remake": rng.randrange(1, 1 << 30) if rng.random() < 0.2 else None,
+        "swallowed": rng.choice([None, None, None, "announce", "url_list", "httpseeds"]),
     }
 
 
@@ -159,7 +160,9 @@ class C01:
                                                   "TorrentFile.assemble", "utils._filelist_total"])
         counters = {}
         oc = drive.create(case["route"], root, os.path.join(out, "m.torrent"), piece_length=case["pl"],
-                          progress=case["progress"])
+                          progress=case["progress"], swallowed=case.get("swallowed"))
+        if case.get("swallowed"):
+            counters["cases_path_given_via_list_option"] = 1
         viol = []
         if not oc.ok:
             viol.append(oracles.V("create-raised", exc=oc.excname(), tb=oc.tb[-1500:]))
@@ -327,7 +330,8 @@ class C15:
             "reference hashing of the zero-padded stream, piece count == ceil(listed bytes / pl); non-trivial "
             "when a file needs padding, is empty, or a single file has a remainder; distinct by (single/multi, "
             "set of per-file remainder classes, pl exponent, route)")
-    required = ("pad_entries_checked", "offsets_checked", "single_cases", "pieces_compared")
+    required = ("pad_entries_checked", "offsets_checked", "single_cases", "pieces_compared",
+                "cases_path_given_via_list_option")
     assumptions = ("reference BEP 3 hashing is correct",)
 
     @staticmethod
@@ -342,7 +346,9 @@ class C15:
         root, out, reach = _setup(case, scratch, ["TorrentFile.assemble", "Hasher._handle_partial", "Hasher.__next__"])
         counters = {}
         oc = drive.create(case["route"], root, os.path.join(out, "m.torrent"), piece_length=case["pl"],
-                          progress=case["progress"], align=True)
+                          progress=case["progress"], align=True, swallowed=case.get("swallowed"))
+        if case.get("swallowed"):
+            counters["cases_path_given_via_list_option"] = 1
         viol = []
         pl = 2 ** case["pl_exp"]
         if not oc.ok:
